@@ -923,9 +923,31 @@ func c03Directed() []*c03Case {
 	}
 }
 
+// c03Family is the extension point for further case families of C03 (files c03_*.go append
+// to c03Extra from an init function).  Kind is the value of the "kind" field of the family's
+// cases: a replay file whose case has that kind is handed to Replay.  Run is called once per
+// harness run, after the directed cases and before the random sweep; it must leave part of
+// the budget to the sweep (ctx.TimeLeft is shared).
+type c03Family struct {
+	Kind   string
+	Run    func(ctx *vh.Ctx) error
+	Replay func(ctx *vh.Ctx, raw json.RawMessage) error
+}
+
+var c03Extra []c03Family
+
 func runC03(ctx *vh.Ctx) error {
 	ctx.Res.Rule = "distinct = (mode, schedule kind, graph, release priority); non-trivial = at least two nodes and at least one superstep, so that completions can be reordered"
 	if ctx.Replay != nil {
+		var k struct {
+			Kind string `json:"kind"`
+		}
+		_ = json.Unmarshal(ctx.Replay, &k)
+		for _, f := range c03Extra {
+			if f.Kind == k.Kind {
+				return f.Replay(ctx, ctx.Replay)
+			}
+		}
 		var c c03Case
 		if err := json.Unmarshal(ctx.Replay, &c); err != nil {
 			return err
@@ -934,6 +956,11 @@ func runC03(ctx *vh.Ctx) error {
 	}
 	for _, c := range c03Directed() {
 		if err := c03One(ctx, c); err != nil {
+			return err
+		}
+	}
+	for _, f := range c03Extra {
+		if err := f.Run(ctx); err != nil {
 			return err
 		}
 	}
